@@ -178,6 +178,7 @@ def reference(v):
                 continue            # an element of white-space controls only: nothing is present
             k = known_name(name_arg(core)[0])
             unspec.add(k or "other")
+            unspec.add("other")     # (with its control octets the element may also count as an unknown directive)
             continue
         n, a = name_arg(e)
         k = known_name(n)
@@ -269,10 +270,11 @@ def mismatches_p(v, impl):
     if "other" in st["flags"] and not st["other"]:
         out.append("flag:other set without text")
     present = bool(exp["flags"] or exp["num"] or exp["priv"] is not None or exp["nc"] is not None or exp["other"])
-    if present and not st["ok"]:
-        out.append("ok: parse reports failure although directives are present")
-    if not present and not unspec and st["ok"]:
-        out.append("ok: parse reports success although no directive is present")
+    if not out:     # (otherwise a wrong return value is a consequence of the mismatch already listed)
+        if present and not st["ok"]:
+            out.append("ok: parse reports failure although directives are present")
+        if not present and not unspec and st["ok"]:
+            out.append("ok: parse reports success although no directive is present")
     if st["ok"] != (1 if st["flags"] else 0):
         out.append("ok: return value disagrees with isSet()")
     # re-serialise: the packed text must parse to the same directives
@@ -347,8 +349,9 @@ def regions(v):
                     if body[i] == 9:
                         res.add("C29-htab-in-quoted-string")
                     i += 1
-    if elems and not anything_known and any(e.strip(C_SPACE) for e in elems):
-        res.add("C29-other-only-dropped")
+    exp, unspec = reference(v)
+    if exp["other"] and not (exp["flags"] or exp["num"] or exp["priv"] is not None or exp["nc"] is not None):
+        res.add("C29-other-only-dropped")   # only unknown directives are present
     return res
 
 
@@ -428,7 +431,7 @@ def oracle(line, impl):
             if QS_RE.fullmatch(body) and b"\t" not in body and b'\\"' not in body and b"\\\\" not in body:
                 want = "ok " + hx(unescape_qs(body))
                 return None if impl == want else "quoted-string %s parsed as %s, expected %s" % (hx(body), impl, want)
-            if not body.startswith(b'"') or body.count(b'"') < 2:
+            if not v.startswith(b'"') or v.count(b'"') < 2:     # (len is only a bound: the closing quote may lie beyond it)
                 return None if impl == "fail" else "text that is not a quoted-string accepted: " + impl
             return None
     except (ValueError, IndexError) as e:
@@ -569,8 +572,8 @@ def boundary_value(rng):
         if rng.chance(1, 2):
             pair.reverse()
         return b", ".join(pair + [b"public"] * rng.below(2))
-    elif k == 5:   # long values (the String limit is 65535)
-        n = rng.choice([200, 4000, 30000, 65000])
+    elif k == 5:   # long values (the String limit is 65535; MemBuf growth under ASan makes the very long ones slow: few of them)
+        n = rng.choice([200, 200, 200, 1000, 1000, 4000]) if not rng.chance(1, 40) else 20000
         if rng.chance(1, 2):
             return b"private=" + quote(rng, bytes(rng.choice(b"abcdefgh, -") for _ in range(n)), False) + b", max-age=1"
         return render_list(rng, [valid_directive(rng) for _ in range(n // 12)])[:65000]
